@@ -104,7 +104,7 @@ def run_pmm(ctx, prop):
     ctx.cov["states"] -= ctx.cov["legs"]["emit-cases"]["distinct"]       # the emission run only enumerates Init
     ctx.cov["transitions"] -= ctx.cov["legs"]["emit-cases"]["generated"]
     # design mutants: the monitor must reject realistic wrong designs (guards against a vacuous oracle)
-    bugs = ["BootJumpToKernelEnd", "ReplayKeepsCursor"] if boot else (["CountIsEndMinusStart", "FreeNoBitTest"] if q else
+    bugs = ["BootJumpToKernelEnd", "ReplayKeepsCursor", "JumpFromOtherRegion"] if boot else (["CountIsEndMinusStart", "FreeNoBitTest"] if q else
                                                  ["CountIsEndMinusStart", "SkipEarlyReplay", "PoolForFrameStrict", "FreeNoBitTest"])
     for b in bugs:
         ctx.expect_model_violation(d, "MCPmm", "MCPmmBug_" + b, timeout=600)
